@@ -60,6 +60,12 @@ CHECKS = {
  "C05": dict(cat="exploration", ref="6/C05", tech="call-event trace monitor (reference BASIC09 interpreter vs Color BASIC reference, scripted device tape) plus a static def-before-use monitor for tmp_N per emitted statement group",
    text="every convertible-function nesting in every carrier statement: the sequence of (procedure, argument values) must equal the source's left-to-right innermost-first call sequence, results must reach the right place, and no physical line may read a temporary it did not assign",
    note="STR$'s known format defect is emulated on the source side so that only calls are judged here"),
+ "C02": dict(cat="exploration", ref="6/C02", tech="PRINT-trace and termination monitor: Color BASIC reference vs reference BASIC09 interpreter on convert() output, 4 option sets, step budget 20x source steps; counterfactual and hypothesis re-runs for diagnosis",
+   text="generated terminating programs over the control-flow fragment log every effect; the emitted program must print the same sequence and stop; known mechanisms are attributed only when adding the missing ELSE / emulating a bottom-tested FOR makes the traces agree",
+   note="trusted base: the two reference interpreters; lexically nested loops, unique ascending line numbers"),
+ "C03": dict(cat="exploration", ref="6/C03", tech="PRINT/INPUT-trace, final-store and uninitialised-read monitors over the two reference interpreters; counterfactual programs (explicit DIM, quoted DATA) for diagnosis",
+   text="generated data programs (arrays with corner stores and read-back, DATA/READ/RESTORE with all item kinds, PRINT arrangements, INPUT forms, string functions on boundary arguments) must give the same event stream and store; with pre-initialisation requested no user variable may be read before assignment",
+   note="numbers are compared by value; BASIC09 base 0 / DIM n gives 0..n-1; READ needs class agreement"),
 }
 
 def main():
